@@ -14,8 +14,8 @@ def elem_transparent():
     return TRANSPARENT | L.HANDLES | L.ELEMENTS
 
 
-@rule("C01", "R01.1", "publish fans out to every attached subscription and joins all posts before it replies", floor=2)
-@rule("C08", "R01.1", "publish fans out to every attached subscription and joins all posts before it replies", floor=2)
+@rule("C01", "R01.1", "publish fans out to every attached subscription and joins all posts before it replies", floor=1)
+@rule("C08", "R01.1", "publish fans out to every attached subscription and joins all posts before it replies", floor=1)
 def r01_1(prog, out):
     R = roles(prog)
     pid = R.publish_body()
@@ -139,6 +139,26 @@ def r01_2(prog, out):
                 out.violation(key, bi.loc(bb), "the result of the mailbox send is discarded: a failed post is silently lost")
     if n == 0:
         raise CheckBroken("no mailbox send found")
+    # a future that (transitively) sends to a mailbox must be awaited to completion: wrappers that poll it once or for a
+    # bounded time and then drop it turn the send into a non-blocking one
+    POLL_ONCE = ("now_or_never", "poll_immediate", "timeout", "timeout_at", "poll_once")
+    for b in prog.facts.lib_bodies():
+        bi = prog.info(b.id)
+        for bb, t in bi.calls(lambda c: c.path.split("::")[-1] in POLL_ONCE):
+            for a in t.args:
+                cid = prog.body_of_type(b, b.operand_ty(a) or "")
+                if not cid:
+                    continue
+                sends = []
+                for x in prog.cone(cid, follow=("call", "closure", "poll")):
+                    xi = prog.info(x)
+                    for aw in (xi.awaits if xi else []):
+                        if await_class(prog, xi, aw) == "mpsc_send" and mpsc_send_request(xi, aw) in reqs:
+                            sends.append(mpsc_send_request(xi, aw))
+                if sends:
+                    out.violation("%s:%s" % (prog.short(b.id), t.callee.path.split("::")[-1]), bi.loc(bb),
+                                  "a request to the %s mailbox is sent through %s(): when the mailbox is full the pending send is dropped and the request "
+                                  "(e.g. a post of published messages) is lost" % (short_ty(sends[0]), t.callee.path.split("::")[-1]))
 
 
 @rule("C01", "R01.3", "a post lands in the backlog unless the subscription is deleted", floor=1)
